@@ -768,7 +768,12 @@ impl<T, R: Recognizer<Target = T>> Recognizer for VecRecognizer<T, R> {
     }
 
     fn reset(&mut self) {
-        self.stage = BodyStage::Init;
+        // As in the constructor: the recognizer for an attribute body starts after the (implicit) start of the body.
+        self.stage = if self.is_attr_body {
+            BodyStage::Between
+        } else {
+            BodyStage::Init
+        };
         self.vector.clear();
         self.rec.reset();
     }
@@ -1112,7 +1117,13 @@ where
 
     fn reset(&mut self) {
         self.key = None;
-        self.stage = MapStage::Init;
+        self.map.clear();
+        // As in the constructors: the recognizer for an attribute body starts after the (implicit) start of the body.
+        self.stage = if self.is_attr_body {
+            MapStage::Between
+        } else {
+            MapStage::Init
+        };
         self.key_rec.reset();
         self.val_rec.reset();
     }
